@@ -1,10 +1,19 @@
 (* DepthCostProofs.v — theorems about DepthCost.v (C07):
-   1. sig_copy is sig_read with a meter (same outcome on every input);
-      copied <= nesting * (bytes consumed) on every input, every outcome (sig_copy_bound);
-      no linear bound: n nested dynamic values, 5 (n + 1) bytes, copy 5 (n + 1) (n + 2) / 2 bytes
-      (nested_m_copy, sig_copy_not_linear);
-   2. the signature parser needs at most (number of opening brackets + 1) nested entries of the type
-      rule (parse_depth_le_opens) and exactly n + 1 on n opening square brackets (parse_depth_opens). *)
+   1. the signature reader's copying
+      a. sig_copy is sig_read with a meter: same outcome on every input (sig_copy_read);
+      b. copied <= nesting * (bytes consumed), every input, every outcome (sig_copy_bound);
+      c. a type without dynamic values: nesting <= rdepth t, hence linear (sig_copy_static_linear);
+      d. no linear bound: n nested dynamic values, 5 (n + 1) bytes, copy 5 (n + 1) (n + 2) / 2 bytes
+         (nested_m_copy, sig_copied_nested, sig_copy_not_linear);
+   2. the signature parser's recursion depth
+      a. at most (number of opening brackets + 1) nested entries of the type rule
+         (parse_depth_le_open_count, parse_depth_le_length);
+      b. exactly n + 1 on n opening square brackets and on n lists around an int32
+         (parse_depth_brackets_eq, parse_depth_nested_list_eq, parse_depth_unbounded);
+      c. parse_depth is a threshold: more fuel changes nothing (parse_depth_spec, decl_m_stable);
+      d. the type returned is no deeper than the parse (parse_depth_ty);
+   3. together: nesting <= rdepth t + 2 |input|, copied <= (rdepth t + 2 |input|) * |input|
+      (sig_copy_nl, sig_copy_quadratic). *)
 From Coq Require Import ZifyN ZifyNat ZifyBool.
 From QV Require Import TotalProofs DepthCost.
 Local Open Scope N_scope.
@@ -1427,3 +1436,17 @@ Section SigCopyNestLen.
     intros fuel t bs. apply (mul_le_l _ _ _ _ (sig_copy_bound_len parse c Hde fuel t bs)). apply sig_copy_nl.
   Qed.
 End SigCopyNestLen.
+
+Print Assumptions sig_copy_read.
+Print Assumptions sig_copy_bound.
+Print Assumptions sig_copy_static_linear.
+Print Assumptions sig_copy_quadratic.
+Print Assumptions sig_copied_nested.
+Print Assumptions sig_copy_not_linear.
+Print Assumptions parse_depth_spec.
+Print Assumptions decl_m_stable.
+Print Assumptions parse_depth_le_open_count.
+Print Assumptions parse_depth_brackets_eq.
+Print Assumptions parse_depth_nested_list_eq.
+Print Assumptions parse_depth_unbounded.
+Print Assumptions parse_depth_ty.
